@@ -831,7 +831,12 @@ CancelWorkflowFlag ==
                    ELSE [gh EXCEPT !.unfinishedAtCancel =
                            {s \in TopLevel : /\ s \in DOMAIN st /\ st[s].status \notin Complete
                                              /\ \E t \in LiveSet(s) : \/ tk[t].status = "NOT_STARTED"
-                                                                      \/ (tk[t].status = "RUNNING" /\ t \notin gh.resulted)}]
+                                                                      \/ (tk[t].status = "RUNNING" /\ t \notin gh.resulted)
+                                             \* a stage one of whose tasks has ALREADY failed (status recorded, or its halting
+                                             \* CompleteTask on the way) had in effect finished: it ends with that failure
+                                             /\ ~\E t \in LiveSet(s) : tk[t].status \in {"TERMINAL", "STOPPED", "FAILED_CONTINUE"}
+                                             /\ ~\E m \in q : m.typ = "CompleteTask" /\ m.s = s
+                                                              /\ m.status \in {"TERMINAL", "STOPPED", "FAILED_CONTINUE"}}]
           /\ SetWk("cw_flagged") /\ Label("CancelWorkflowFlag")
           /\ UNCHANGED <<st, tk, dlq, claims, ledger, cnt>>
 
